@@ -375,6 +375,11 @@ func (s *BufferedPaginatedStore) minIndexWithCumulCount(predicate func(float64) 
 }
 
 func (s *BufferedPaginatedStore) MergeWith(other Store) {
+	if other == Store(s) {
+		// Adding to s may compact (sort and rewrite) the buffer that is being
+		// iterated over: merge a copy instead.
+		other = s.Copy()
+	}
 	o, ok := other.(*BufferedPaginatedStore)
 	if ok && s.pageLenLog2 == o.pageLenLog2 {
 		// Merge pages.
